@@ -265,7 +265,71 @@ func (m *Model) RunKinds(s *Sink, rule string) {
 			}
 		}
 	}
-	if ok1 && ok2 {
+	// decided by cases when possible: the lookup function evaluated on an object with the properties Name, other
+	// and Élan, asked for name, Name, other, élan and a name that is not there
+	decidedOK := false
+	if objT, errT := m.namedType("object", "Obj"), m.namedType("object", "Error"); objT != nil && errT != nil && len(oi.Params) >= 3 {
+		fPairs := -1
+		ost := objT.Underlying().(*types.Struct)
+		for i := 0; i < ost.NumFields(); i++ {
+			if canonFieldName(objT, i, ost.Field(i).Name()) == "Pairs" {
+				fPairs = i
+			}
+		}
+		vals := map[string]any{}
+		mk := func(name string) any { return iObj{"value of " + name} }
+		mp := &iMap{vals: map[string]any{}, kval: map[string]constant.Value{}}
+		for _, k := range []string{"Name", "other", "Élan", "N"} {
+			kc := constant.MakeString(k)
+			vals[k] = mk(k)
+			mp.keys = append(mp.keys, kc.ExactString())
+			mp.vals[kc.ExactString()] = vals[k]
+			mp.kval[kc.ExactString()] = kc
+		}
+		all, n := fPairs >= 0, 0
+		for _, tc := range []struct{ ask, want string }{{"name", "Name"}, {"Name", "Name"}, {"other", "other"}, {"élan", "Élan"}, {"Élan", "Élan"}, {"n", "N"}, {"N", "N"}, {"zzz", ""}, {"Other", ""}, {"", ""}, {"x", ""}} {
+			if !all {
+				break
+			}
+			obj := &iStruct{typ: objT, fields: map[int]any{fPairs: mp}}
+			ip := &Interp{m: m, useGlobals: true}
+			ip.call = func(c *ssa.Call, args []any) (any, bool) {
+				if sc := c.Call.StaticCallee(); sc != nil && m.InModule(sc) && sc.Signature.Results().Len() == 1 && types.Identical(sc.Signature.Results().At(0).Type(), types.NewPointer(errT)) {
+					return &iStruct{typ: errT, fields: map[int]any{}}, true
+				}
+				return nil, false
+			}
+			args := make([]any, len(oi.Params))
+			args[0] = iObj{"evaluator"}
+			for i := 1; i < len(oi.Params); i++ {
+				switch {
+				case isStringT(oi.Params[i].Type()):
+					args[i] = constant.MakeString(tc.ask)
+				case strings.HasSuffix(oi.Params[i].Type().String(), "object.Object") || strings.HasSuffix(oi.Params[i].Type().String(), "object.Obj"):
+					args[i] = obj
+				default:
+					args[i] = iObj{"node"}
+				}
+			}
+			res, known := ip.Run(oi, args)
+			n++
+			if ip.stuck != "" || !known {
+				all = false
+				break
+			}
+			if tc.want == "" {
+				if o, isO := res.(*iStruct); !isO || o.typ != errT {
+					all = false
+				}
+			} else if res != vals[tc.want] {
+				all = false
+			}
+		}
+		decidedOK = all && n == 11
+	}
+	if decidedOK {
+		s.OK(rule, fnKey(oi)+"|exact key then upper-cased first letter", m.Pos(oi.Pos()), "case evaluation on an object with the properties Name, other, Élan, N: name, Name, other, élan, Élan, n, N are found; zzz, Other, x and the empty name are errors")
+	} else if ok1 && ok2 {
 		s.OK(rule, fnKey(oi)+"|exact key then upper-cased first letter", m.Pos(oi.Pos()), "two lookups: the key as written, then with its first letter upper-cased")
 	} else {
 		s.Violation(rule, fnKey(oi)+"|exact key then upper-cased first letter", m.Pos(oi.Pos()), "property lookup does not try the exact key and then the key with its first letter upper-cased: struct fields are not reachable lower-cased (or map keys not exactly)")
@@ -559,4 +623,37 @@ func edgeImpliesEmpty(pred, succ *ssa.BasicBlock, v ssa.Value) bool {
 		}
 	}
 	return false
+}
+
+// RunLiteralKey — R-KINDS (literal keys): a map key is reachable by its name through index syntax. The name written
+// in `m["a&b"]` is a string literal; it reaches the property lookup as the object that evaluating the literal yields.
+// That object must hold the text as written: a literal that is HTML-escaped when it is evaluated (rather than when it
+// is printed) asks the map for `a&amp;b`.
+func (m *Model) RunLiteralKey(s *Sink, rule string) {
+	var lit *ssa.Function
+	for _, n := range []string{"evalString", "evalStringLiteral"} {
+		if f := m.Method("evaluator", "Evaluator", n); f != nil {
+			lit = f
+		}
+	}
+	if lit == nil {
+		s.Undecided(rule, "evaluator|string literal", "-", "the function that evaluates a string literal was not found")
+		return
+	}
+	escaped := ""
+	for _, h := range m.helpersOf(lit) {
+		for _, b := range h.Blocks {
+			for _, in := range b.Instrs {
+				if c, ok := in.(*ssa.Call); ok && c.Call.StaticCallee() != nil && fnFullName(c.Call.StaticCallee()) == "html.EscapeString" && escaped == "" {
+					escaped = m.InstrPos(c)
+				}
+			}
+		}
+	}
+	key := "evaluator." + canonFnName(lit) + "|a string literal evaluates to the text as written" // keyed by name: the same finding whether it is a method or a function
+	if escaped != "" {
+		s.Violation(rule, key, m.Pos(lit.Pos()), "%s HTML-escapes the literal when it is evaluated (html.EscapeString at %s), so every consumer other than the printer sees the escaped text: the index `m[\"a&b\"]` asks the map for `a&amp;b` and a key that contains &, < or > cannot be reached by its name", fnKey(lit), escaped)
+	} else {
+		s.OK(rule, key, m.Pos(lit.Pos()), "no escaping where the literal is evaluated")
+	}
 }
